@@ -289,7 +289,7 @@ class Ctx:
         Returns True when everything checks.  A failure is recorded as broken-proof (the caller
         still runs its search for a failing input)."""
         mods = list(proof_modules if proof_modules is not None else self.meta["lean_modules"])
-        ok, log = lake_build(["XdslModel", "driver", *mods])
+        ok, log = lake_build(["XdslModel", "driver", *self.meta.get("extra_targets", []), *mods])
         if not ok:
             # distinguish model/driver build errors in proof modules from infra
             first = re.search(r"error: (\S+\.lean):(\d+)", log)
